@@ -4,3 +4,6 @@ open OrxPar
 #print axioms C11_runner
 #print axioms C11_next_chunk
 #print axioms C11_workers
+#print axioms C11_pulls
+#print axioms C11_blocks
+#print axioms C11_end_to_end
